@@ -1,15 +1,22 @@
 """C15 — passed file descriptors arrive intact and are never leaked."""
-import json, os, random, sys
+import json, os, random, resource, sys
 import vlib
 sys.path.insert(0, os.path.join(vlib.VERIF, "harness", "py"))
 import fds_check as fc
 import fds_gen as fg
 
+# the extracted model counts fuel in unary nat: a megabyte-long message needs a deep (non-tail) recursion once per write
+try:
+    _soft, _hard = resource.getrlimit(resource.RLIMIT_STACK)
+    resource.setrlimit(resource.RLIMIT_STACK, (_hard, _hard))
+except (ValueError, OSError):
+    pass
+
 MLS = ("fds",)
 HARNESSES = ("fds_h",)
 LEVEL = "proof"
 THEOREMS = ["C15_conservation", "C15_closed_exactly_once", "C15_received_from_sent", "C15_order_and_count",
-            "C15_only_negotiated", "C15_full", "C15_fuel_suffices"]
+            "C15_only_negotiated", "C15_full", "C15_fuel_suffices", "C15_write_split", "C15_delivery_on_the_wire"]
 
 NONTRIVIAL = {"delivered-with-fds", "error-NotSupported", "error-AccessDenied", "error-NoDest", "sender-disconnected-by-bus",
               "descriptors-held", "pending-timeout-fired", "driver-reply"}
@@ -22,6 +29,10 @@ def gen_cases(tier, rnd):
     for i in range(n_plain):
         cfg = cfgs[i % len(cfgs)]
         cases.append(("gen%d" % i, cfg, fg.gen_history(rnd, cfg, rnd.randint(5, 14))))
+    n_long = 10 if tier == "quick" else 160
+    for i in range(n_long):
+        cfg = (rnd.choice([1, 2, 4, 4, 16]), fg.UNTIMED, rnd.choice([-1, -1, -1, 3]), fg.CAP)
+        cases.append(("long%d" % i, cfg, fg.gen_long_history(rnd, cfg, rnd.randint(2, 5))))
     for i in range(n_timed):
         cfg = fg.TIMED_CFGS[i % len(fg.TIMED_CFGS)]
         gen = fg.gen_timed_history if i % 3 else fg.gen_history
@@ -58,9 +69,10 @@ def run(ctx):
     known = vlib.load_known("C15")
     dist, nontrivial, steps, tainted, disagreements, validated, oracle_flags = {}, set(), 0, 0, 0, 0, 0
     samples = []
+    partial_writes = 0
     for i, (name, cfg, ev) in enumerate(cases):
         replay = {"cfg": list(cfg), "events": ev, "name": name,
-                  "how": "python3 tools/check.py C15 --replay <this file>  (model alone: echo 'hist %s %s' | build/ml/fds/model)" % (fc.cfg_str(cfg), " ".join(ev))}
+                  "how": "python3 tools/check.py C15 --replay <this file>  (model alone: echo 'hist %s %s' | build/ml/fds/model; long messages need `ulimit -s unlimited`)" % (fc.cfg_str(cfg), " ".join(ev)[:3000])}
         toks, notes = impl[i] if impl[i] else (None, {})
         if toks is None:
             if notes.get("daemon_alive") is False or "Sanitizer" in notes.get("stderr", ""):
@@ -80,6 +92,7 @@ def run(ctx):
             dist[c] = dist.get(c, 0) + 1
         if cl & NONTRIVIAL:
             nontrivial.add((tuple(cfg), tuple(ev)))
+        partial_writes += notes.get("partial_writes", 0)
         flags = fc.oracle(cfg, ev, it, notes)
         if flags:
             oracle_flags += 1
@@ -176,7 +189,9 @@ def run(ctx):
                 "policy count limit-1/limit}, attached = announced (62%%), a surplus of 1-2 or up to the maximum (24%%), or fewer / 0 / max+1 (14%%), destinations: negotiated / "
                 "non-negotiated / own / dead / never-existing connection, missing name, bus driver, broadcast; policy denial by interface and by "
                 "descriptor count; messages invalid in the fixed header (byte order, lengths over max_message_size) or only once complete (missing required field, bad UTF-8, protocol version); "
-                "disconnects of senders and recipients between the pieces; max_message_unix_fds in {1,2,3,4,16}; pending_fd_timeout %d ms with "
+                "disconnects of senders and recipients between the pieces; a group of histories with descriptor-carrying messages of 300 KB - 1 MB "
+                "(70%% in the header: a legal, very long object path; else in the body) to recipients that read nothing until the bus has written what "
+                "their socket takes, so that the bus needs several sendmsg calls per message (measured: steps_with_partial_writes_by_the_bus); max_message_unix_fds in {1,2,3,4,16}; pending_fd_timeout %d ms with "
                 "ticks of %d/%d ms in the timed group (every sum of ticks is at least 200 ms away from the timeout); plus %d hand-written boundary scenarios.  Events the model calls ill-formed (writes on "
                 "connections the bus has closed) are removed before the run (%d removed).  non-trivial = the model predicts at least one of %s; "
                 "distinct = distinct (configuration, event list).  LIBRARY LEG: %d histories of one libdbus client connection (max_message_unix_fds in {1,2,3,4,16}, negotiated 85%%) reading the same kinds of writes from a scripted raw peer; "
@@ -184,7 +199,7 @@ def run(ctx):
                 "against the pending count after every step and against the baseline after the last unref (%d ill-formed events removed)"
                 % (fg.TIMEOUT, fg.TICK_MID, fg.TICK_LONG, len(fg.scenarios()), removed, sorted(NONTRIVIAL), len(lcases), lremoved),
         "samples": samples, "input_distribution": dist, "traces_validated_against_impl": validated + len([r for r in lres if r != "!CRASH"]), "steps_compared": steps,
-        "disagreements_checked": disagreements, "timing_unusable": tainted, "oracle_flagged_histories": oracle_flags, "exhaustive": False,
+        "disagreements_checked": disagreements, "timing_unusable": tainted, "steps_with_partial_writes_by_the_bus": partial_writes, "oracle_flagged_histories": oracle_flags, "exhaustive": False,
         "explanation": "PROVED (Coq, all histories, about the model coq/Fds/Fds.v): see property_theorems.  EXPLORED ONLY (not provable about C code "
                        "from a model): that the real daemon calls close() exactly once per descriptor on every path and that its descriptor table is "
                        "back at the baseline; this is observed out of process on every generated history through /proc/<pid>/fd after ordering "
